@@ -69,8 +69,16 @@ def only_metarize_writes_flags(ctx, rule='C17-R4'):
     for q, e in events():
         if e.kind not in ('store', 'aug') or e.target is None:
             continue
-        cols = {x[2] for x in T.walk(e.target) if T.tag(x) == 'col'} | {x[3] for x in T.walk(e.target) if T.tag(x) == 'cell'} | \
-               {c for x in T.walk(e.target) if T.tag(x) == 'cols' for c in x[2]}
+        # the column(s) written: those named along the chain target -> base (not those read inside a selection)
+        cols, t = set(), e.target
+        while isinstance(t, tuple) and T.tag(t) in ('col', 'cell', 'cols', 'mask', 'rows', 'sub', 'upd'):
+            if T.tag(t) == 'col':
+                cols.add(t[2])
+            elif T.tag(t) == 'cell':
+                cols.add(t[3])
+            elif T.tag(t) == 'cols':
+                cols.update(t[2])
+            t = t[1]
         if 'significant' not in cols:
             continue
         n += 1
